@@ -130,6 +130,8 @@ def driver_lines(tr):
 
 def validate_trace(driver, tr):
     """Replay one engine trace through the model.  Returns None or a disagreement dict."""
+    if getattr(tr, "off_model", None):
+        return {"layer": "engine", "at": 0, "label": "-", "model": "no such step", "what": tr.off_model}
     if not tr.labels and tr.outcome is not None and tr.outcome[0] == "raise":
         return None        # the engine refused its arguments before doing anything: nothing to replay
     lines = driver_lines(tr)
